@@ -266,6 +266,15 @@ def run_draw(line, orientation):
         shutil.rmtree(tmp, ignore_errors=True)
 
 
+def has_solution(case, algo):
+    """Every input has a solution except an ordered solver given leaves whose gene orders admit no common root order (C02: the result is
+    then empty; the command exits with status 1 and writes nothing, which the property does not forbid)."""
+    if D.ORDERED.get(algo) and case.leafsyn is not None:
+        from engine.oracles import labels as LB
+        return bool(LB.root_orders(case.O, case.leafsyn, case.rootsyn))
+    return True
+
+
 def file_level_fails(desc, algo, costs):
     fails = []
     # on the command line an infinite cost is the Python float (--cost-hgt "float('inf')"), which JSON can carry
@@ -278,11 +287,16 @@ def file_level_fails(desc, algo, costs):
             fails.append(f"super-reconciliation algorithm without syntenies: status {st}, output {raw[:40]!r}")
         return fails
     keysets = {}
+    solvable = has_solution(case, algo)
     for policy in ("any", "all"):
         try:
             st, err, lines, raw = run_cli(desc, algo, policy, costs)
         except Exception as e:
             return [f"{policy}: exception {type(e).__name__}: {e}"]
+        if not solvable:
+            if raw != "":
+                fails.append(f"{policy}: output written although no gene order is compatible with all leaves: {raw[:60]!r}")
+            continue
         if st not in (None, 0):
             fails.append(f"{policy}: exit status {st}")
             continue
@@ -347,6 +361,7 @@ def front_item(item):
                                   "signature": {"kind": kind, "algo": algo, "what": re.sub(r"[0-9]+", "#", text)[:60]},
                                   "data": {"what": "cli", "desc": desc, "algo": algo, "costs": H.cost_json(cc)}, "confirmed": bool(cf)})
 
+    solvable = has_solution(case, algo)
     try:
         if not (sup and case.leafsyn is None):
             ctx, costs = H.cost_ctx(item["sym"], fixed=fixed, coherent=True, with_sloss=sup, max_paths=item["max_paths"], budget_s=item["budget_s"])
@@ -366,6 +381,12 @@ def front_item(item):
                     finally:
                         sys.stderr = old
                     out["obligations"] += 1
+                    if not solvable:
+                        if results:
+                            viol("nonempty", "a result is returned although no gene order is compatible with all leaves", H.concrete_costs(costs, ctx.model_values()))
+                            break
+                        out["discharged"] += 1
+                        continue
                     if not results:
                         viol("empty", "no result", H.concrete_costs(costs, ctx.model_values()))
                         break
@@ -532,6 +553,13 @@ def main(argv=None):
             fixed = dict(fixed, hgt="inf")
         items.append({"kind": "front", "desc": d, "algo": algo, "sym": sym, "fixed": fixed, "concrete": fixed_list, "nwit": 4 if q else 8,
                       "max_paths": 4000 if q else 20000, "budget_s": 100.0 if q else 900.0, "section": 1})
+    # ordered solvers on leaves whose gene orders are mutually inconsistent: no solution exists, nothing may be written
+    for k, algo in enumerate(["ext_spfs", "base_spfs"] * (1 if q else 6)):
+        base = SR.random_super_input(rng, rng.randint(2, 3), 2, 3, True)
+        ls = sorted(base["leafsyn"])
+        base["leafsyn"][ls[0]], base["leafsyn"][ls[1]] = ["a", "b", "c"][: 2 + k % 2], ["b", "a"]
+        items.append({"kind": "front", "desc": random_named(rng, RC.documented_names(base)), "algo": algo, "sym": SR.DHS, "fixed": {"spe": 0, "floss": 1},
+                      "concrete": fixed_list, "nwit": 2, "max_paths": 4000, "budget_s": 100.0, "section": 1})
     alpha = "aA_b"
     for s1 in ["".join(p) for k in range(1, (3 if q else 4)) for p in itertools.product(alpha, repeat=k)]:
         items.append({"kind": "mapping", "s1": s1, "section": 2})
